@@ -215,12 +215,19 @@ def framing_leg(ck, tier):
 
 class _Seg:
     """A socket that hands out a byte stream in exactly the given segments, then reports end of stream."""
-    def __init__(self, segs):
+    def __init__(self, segs, again=False):
         self.segs = list(segs)
+        self.again = again          # answer "try again" (EAGAIN) once before every segment but the first (SshStream!Again)
+        self.told = not again
 
     def recv(self, n):
         if not self.segs:
             return b''
+        if self.again and not self.told:
+            self.told = True
+            import errno as _errno
+            raise BlockingIOError(_errno.EAGAIN if len(self.segs) % 2 else _errno.EWOULDBLOCK, 'Resource temporarily unavailable')
+        self.told = False
         seg = self.segs.pop(0)
         if len(seg) > n:
             self.segs.insert(0, seg[n:])
@@ -374,16 +381,20 @@ def _stream_proto(ck, tier, proto):
         stream = b''.join(mk(pl) for pl in payloads)
         edges = [0] + list(c['cuts']) + [len(stream)]
         segs = [stream[a:b] for a, b in zip(edges, edges[1:])]
-        s = SSH_Socket(OutputBuffer(), 'localhost', 22)
-        s._SSH_Socket__sock = _Seg(segs)
-        got = []
-        try:
-            for _ in range(len(payloads) + 1):
-                got.append(s.read_packet(proto))
-        except BaseException as e:    # noqa
-            got.append(('raised', repr(e)))
         want = [(pl[0], pl[1:]) for pl in payloads]
-        ok = got[:len(want)] == want and len(got) == len(want) + 1 and got[-1][0] == -1
+        ok = True
+        for again in ((False, True) if c['cuts'] else (False,)):
+            s = SSH_Socket(OutputBuffer(), 'localhost', 22)
+            s._SSH_Socket__sock = _Seg(segs, again=again)
+            got = []
+            try:
+                for _ in range(len(payloads) + 1):
+                    got.append(s.read_packet(proto))
+            except BaseException as e:    # noqa
+                got.append(('raised', repr(e)))
+            ok = got[:len(want)] == want and len(got) == len(want) + 1 and got[-1][0] == -1
+            if not ok:
+                break
         if not ok:
             k = next((i for i, (g, w) in enumerate(zip(got, want)) if g != w), len(want))
             where = 'first' if k == 0 else 'later'
@@ -398,7 +409,7 @@ def _stream_proto(ck, tier, proto):
                         cut_kind = 'in-length' if rel < 4 else 'before-payload' if rel < 5 else 'in-payload' if rel < 5 + n else 'in-padding' if rel < fl else 'boundary'
                         break
                     acc += fl
-            ck.violation('stream-read proto=%d packet=%s cut=%s' % (proto, where, cut_kind),
+            ck.violation('stream-read proto=%d packet=%s cut=%s%s' % (proto, where, cut_kind, ' try-again-between-segments' if again else ''),
                          'packets of payload sizes %r delivered in segments cut at %r: read_packet call %d returned %r' % (c['pkts'], c['cuts'], k + 1, got[k] if k < len(got) else None),
                          {'pkts': c['pkts'], 'cuts': c['cuts'], 'returned': [(g[0], g[1].hex() if isinstance(g[1], bytes) else g[1]) for g in got]})
         else:
